@@ -204,61 +204,74 @@ package obfs
 //@   props C14
 //@   requires muHeld
 
+// census[g][a]: the number of pending messages of source a in g's table, kept by the two
+// rules below at every change of the table's key set (a new key enters / a present key
+// leaves). CENSUS_POS is the one fact about counting that is assumed rather than derived:
+// while a key of source a is present, the count for a is at least 1.
+//@ ghost var census (Array Int (Array Str Int))
+//@ hook mapinsert geckoPacketConn.reassembly(obj, k)
+//@   when !indom(obj.reassembly, k)
+//@   update census = upd(census, obj, k.addr, sel(census, obj, k.addr) + 1)
+//@ hook mapdelete geckoPacketConn.reassembly(obj, k)
+//@   when indom(obj.reassembly, k)
+//@   update census = upd(census, obj, k.addr, sel(census, obj, k.addr) - 1)
+//@   use CENSUS_POS(obj, k)
+//@ axiom CENSUS_POS (g *geckoPacketConn, k reassemblyKey): indom(g.reassembly, k) ==> sel(census, g, k.addr) >= 1
+
 //@ spec func srcCount(g, a) = ite(indom(g.perSource, a), g.perSource[a], 0)
 
-// every pending entry is incomplete and consistent: chunk table of its declared size (2..8),
-// received = number of chunks present < total; per-source counters are positive
-//@ spec func entryOK(e) = e != nil && len(e.chunks) == e.total && e.total >= 2 && e.total <= 8
-//@     && e.received == cntR(row(e.chunks, "base"), off(e.chunks), len(e.chunks)) && e.received < e.total
+// the table: at most 4096 pending messages; the per-source counters are the census, at most
+// 8, and present only while positive
+//@ spec func tabOK(g) = g.reassembly != nil && g.perSource != nil && len(g.reassembly) <= 4096
+//@     && forallStr(a, srcCount(g, a) == sel(census, g, a) && srcCount(g, a) <= 8 && (indom(g.perSource, a) ==> g.perSource[a] >= 1))
+//@     && forallKey(q, g.reassembly, entryOK(g.reassembly[q]))
+// every pending entry has a chunk table of its declared size
+//@ spec func entryOK(e) = e != nil && len(e.chunks) == e.total
 
 // dropEntryLocked: removes exactly that key (if present) and gives its slot back to its source
 //@ func (*geckoPacketConn).dropEntryLocked
 //@   props C14 C03
 //@   nonil
-//@   requires muHeld && g.reassembly != nil && g.perSource != nil
-//@   requires indom(g.reassembly, k) ==> srcCount(g, k.addr) >= 1
-//@   ensures muHeld
+//@   requires muHeld && tabOK(g)
+//@   ensures muHeld && tabOK(g)
 //@   ensures !indom(g.reassembly, k) && len(g.reassembly) == old(len(g.reassembly)) - ite(old(indom(g.reassembly, k)), 1, 0)
-//@   ensures srcCount(g, k.addr) == old(srcCount(g, k.addr)) - ite(old(indom(g.reassembly, k)), 1, 0)
-//@   ensures forallStr(a, a != k.addr ==> srcCount(g, a) == old(srcCount(g, a)))
-//@   ensures forallStr(a, indom(g.perSource, a) ==> g.perSource[a] >= 1 || old(!(g.perSource[a] >= 1)))
-//@   modifies any
-
-//@ spec func rkey(g, a, id) = mkkey(g.reassembly, a, id)
-//@ spec func tabOK(g) = g.reassembly != nil && g.perSource != nil && len(g.reassembly) <= 4096
-//@     && forallStr(a, srcCount(g, a) <= 8 && (indom(g.perSource, a) ==> g.perSource[a] >= 1))
-//@     && forallStr(a, forall(id, 0, 256, indom(g.reassembly, rkey(g, a, id)) ==> entryOK(g.reassembly[rkey(g, a, id)]) && srcCount(g, a) >= 1))
-
-// proof hints where a chunk is stored / a chunk table is created
-//@ hook elemstore []uint8(s, i, v) in (*geckoPacketConn).acceptChunk
-//@   use CNTR_NIL(row(s, "base"), off(s), len(s))
-//@   use CNTR_BOUND(row(s, "base"), off(s), len(s))
-//@   use CNTR_HOLE(row(s, "base"), off(s), len(s), off(s) + i)
-//@   use CNTR_UPD(row(s, "base"), off(s), len(s), off(s) + i, base(v))
+//@   ensures forallKey(q, g.reassembly, old(indom(g.reassembly, q)) && g.reassembly[q] == old(g.reassembly[q]))
+//@   modifies mapof(g.reassembly), mapof(g.perSource), census
 
 //@ func (*geckoPacketConn).evictOldestLocked
 //@   props C14 C03
-//@   trusted
+//@   nonil
 //@   requires muHeld && tabOK(g)
-//@   ensures muHeld && tabOK(g) && (old(len(g.reassembly)) >= 1 ==> len(g.reassembly) == old(len(g.reassembly)) - 1)
-//@   modifies any
+//@   ensures muHeld && tabOK(g)
+//@   ensures old(len(g.reassembly)) >= 1 ==> len(g.reassembly) == old(len(g.reassembly)) - 1
+//@   ensures forallKey(q, g.reassembly, old(indom(g.reassembly, q)) && g.reassembly[q] == old(g.reassembly[q]))
+//@   modifies mapof(g.reassembly), mapof(g.perSource), census
+//@   loop 0
+//@     invariant muHeld && tabOK(g) && (first ==> forallKey(q, g.reassembly, !visited(g.reassembly, q))) && (!first ==> indom(g.reassembly, oldestKey))
 
 //@ func (*geckoPacketConn).acceptChunk
 //@   props C14 C03
 //@   nonil
 //@   requires !muHeld && !isnil(addr) && h.totalChunks >= 2 && h.totalChunks <= 8 && h.chunkIdx < h.totalChunks
 //@   requires tabOK(g)
-//@   ensures !muHeld
+//@   ensures !muHeld && tabOK(g)
 //@   ensures !ret1 ==> ret0 == nil
 //@   ensures ret1 ==> ret0 != nil && fresh(ret0)
-//@   ensures len(g.reassembly) <= 4096 && forallStr(a, srcCount(g, a) <= 8)
 //@   modifies any
 //@   loop 0
-//@     invariant muHeld && total == sumR(row(e.chunks, "len"), off(e.chunks), rangeindex + 1) && total >= 0
+//@     invariant muHeld
+//@     invariant tabOK(g)
+//@     invariant len(e.chunks) <= 255
+//@     invariant total == sumR(row(e.chunks, "len"), off(e.chunks), rangeindex + 1)
+//@     invariant total >= 0
 //@     use SUMR_NONNEG(row(e.chunks, "len"), off(e.chunks), rangeindex + 2)
 //@     use SUMR_UB(row(e.chunks, "len"), off(e.chunks), rangeindex + 2)
 //@   loop 1
-//@     invariant muHeld && fresh(out) && len(out) == sumR(row(e.chunks, "len"), off(e.chunks), len(e.chunks))
-//@     invariant 0 <= off && off == sumR(row(e.chunks, "len"), off(e.chunks), rangeindex + 1)
+//@     invariant muHeld
+//@     invariant tabOK(g)
+//@     invariant fresh(out)
+//@     invariant len(out) == sumR(row(e.chunks, "len"), off(e.chunks), len(e.chunks))
+//@     invariant 0 <= off
+//@     invariant off == sumR(row(e.chunks, "len"), off(e.chunks), rangeindex + 1)
 //@     use SUMR_MONO(row(e.chunks, "len"), off(e.chunks), rangeindex + 1, len(e.chunks))
 //@     use SUMR_MONO(row(e.chunks, "len"), off(e.chunks), rangeindex + 2, len(e.chunks))
